@@ -664,7 +664,7 @@ def generate(ctx, bases, enums):
         elif kind == 4:
             rng.shuffle(proj)
         elif kind == 5:  # duplicate / defaulted / clashing names
-            names = [rng.choice(["a", "a", "b", "", "column_B", "column_C", "column_D", " a ", "A"]) for _ in cols]
+            names = [rng.choice(["a", "a", "b", "", "", "column_B", "column_C", "column_D", "column_E", " a ", "A"]) for _ in cols]
             proj = [r for r in proj if not (is_data_row(r) and r[0].strip() == "name")]
             proj.insert(rng.randrange(len(proj) + 1), ["name"] + names)
         elif kind == 6:  # an entirely empty column in the middle
@@ -746,6 +746,18 @@ def evaluate(ctx, tables, cf, enums, tag, text, mode):
     except Exception as e:
         items = []
         problems.append(("result", "not a mapping: %r" % (e,)))
+    # "unique names": every configuration column of the file must come back as its own configuration -- two
+    # columns that end up with the same (explicit or defaulted) name may not silently overwrite one another.
+    # The column list is the reader's own first stage (read_dict_list_csv), so no tokenisation is re-derived here.
+    try:
+        ncols = sum(1 for c in cf.read_dict_list_csv(feed(text, mode)) if c)   # entirely empty columns are skipped by design
+    except Exception:
+        ncols = None
+    if ncols is not None and not problems and len(items) != ncols:
+        ctx.violation("in-domain:names-not-unique", inp,
+                      "the file has %d configuration columns but %d configurations were returned: columns with the same "
+                      "name overwrote one another instead of being rejected [%s]" % (ncols, len(items), tag),
+                      observed="%d configurations, names %r" % (len(items), [k for k, _ in items][:8]), expected="%d configurations or InvalidCodecFeaturesError" % ncols)
     for key, f in items:
         try:
             problems += [(key, fld, p) for fld, p in in_domain(tables, enums, key, f)]
@@ -892,6 +904,12 @@ def replay(ctx, data):
     problems = []
     for key, f in real[1].items():
         problems += [(key, fld, p) for fld, p in in_domain(tables, enums, key, f)]
+    try:
+        ncols = sum(1 for c in cf.read_dict_list_csv(feed(text, mode)) if c)   # entirely empty columns are skipped by design
+        if ncols != len(real[1]):
+            problems.append(("*", "name", "%d configuration columns but %d configurations returned" % (ncols, len(real[1]))))
+    except Exception:
+        pass
     print("returned %d configurations; out-of-domain fields: %r" % (len(real[1]), problems))
     print("property violated on this input:", bool(problems))
     return 1 if problems else 0
